@@ -21,7 +21,11 @@ oracle_c01 — line protocol (one result line per input line; the first line of 
                                                  whether or not the map still refers to it (`t` must be inside)
   `stress <variant> <rw> <prime> <goroutines ≤ 64> <keys ≤ 8> <ms ≤ 5000> <seed>` → `ok`   parallel run (child process)
 Keys (all valid Go map keys with reflexive equality; the token is the key's identity): `i<int>`, `l<int64>`, `h<int32>`,
-`b<uint8>`, `s<text>`, `t<int>:<text>` (struct, single map only). Ill-formed or not-enabled lines → `bad-op`.
+`b<uint8>`, `s<text>` (routable by remap); `t<int>:<text>` struct, `p<n>` pointer to object n, `f<int>` / `f-0` float64
+(`f-0` is the same key as `f0`): on wide / xhash maps an Acquire* on these → `panic:unroutable` (remap.ToBytes, before
+any lock; the caller id is used up, nothing is stored).  `poke <n>` → `ok` (pointee of `p<n>` changed, key unchanged).
+`burst <variant> <rw> <prime> <n ≤ 20000>` → `live=<n> after=<0>`   n distinct keys held at once, then all released.
+Ill-formed or not-enabled lines → `bad-op`.
 The delete guard is the one regenerated from the source (`Nv.Gen.C01.cfg`).
 -/
 open Nv Nv.C01
@@ -53,8 +57,9 @@ def intCanon (body : String) (lo hi : Int) : Bool :=
   | some v => toString v == body && decide (lo ≤ v) && decide (v ≤ hi)
   | none => false
 
-/-- key tokens: `i` int, `l` int64, `h` int32, `b` uint8, `s` string, `t<int>:<text>` struct (single map only) -/
-def validKey (single : Bool) (s : String) : Bool :=
+/-- key tokens: `i` int, `l` int64, `h` int32, `b` uint8, `s` string (routable by remap); `t<int>:<text>` struct,
+    `p<n>` pointer to object n, `f<int -1000..1000>` / `f-0` float64 (valid map keys remap cannot route) -/
+def validKey (s : String) : Bool :=
   match s.toList with
   | 's' :: _ => true
   | 'i' :: rest => intCanon (String.ofList rest) (-9223372036854775808) 9223372036854775807
@@ -62,9 +67,22 @@ def validKey (single : Bool) (s : String) : Bool :=
   | 'h' :: rest => intCanon (String.ofList rest) (-2147483648) 2147483647
   | 'b' :: rest => intCanon (String.ofList rest) 0 255
   | 't' :: rest =>
-    single && rest.contains ':' &&
+    rest.contains ':' &&
       intCanon (String.ofList (rest.takeWhile (· != ':'))) (-9223372036854775808) 9223372036854775807
+  | 'p' :: rest => (natCanon (String.ofList rest) 3).isSome
+  | 'f' :: rest => String.ofList rest == "-0" || intCanon (String.ofList rest) (-1000) 1000
   | _ => false
+
+/-- key kinds `remap.ToBytes` has an arm for -/
+def routableTok (s : String) : Bool :=
+  match s.toList with
+  | 't' :: _ => false
+  | 'p' :: _ => false
+  | 'f' :: _ => false
+  | _ => true
+
+/-- identity of the key: `0.0 == -0.0` is one Go map key -/
+def canonTok (s : String) : String := if s == "f-0" then "f0" else s
 
 def findIdx (l : List String) (s : String) : Option Nat :=
   let rec go : List String → Nat → Option Nat
@@ -92,8 +110,10 @@ def woke (o : OSt) (k : Key) (s s' : State) : List Nat :=
 def callOf (o : OSt) (t : Tid) : Option (Tid × Key × Bool) := o.calls.find? (·.1 == t)
 
 def doAcquire (o : OSt) (t : Tid) (tok : String) (wr : Bool) (precancelled : Bool) : OSt × String :=
-  let (o, k) := intern o tok
+  let (o, k) := intern o (canonTok tok)
   let o := { o with calls := o.calls ++ [(t, k, wr)] }
+  -- sharded map, key kind remap cannot route: panic in `remap.ToBytes` before any lock (`MWR`: no step)
+  if !o.single && !routableTok tok then (o, "panic:unroutable") else
   match step cfg o.rw o.st (.acquire t k wr) with
   | none => (o, "bad-op")
   | some s1 =>
@@ -117,6 +137,22 @@ def stepLine (o : OSt) (line : String) : OSt × String :=
     if (v == "single" || v == "wide" || v == "xhash") && inR (natCanon rw 6) 1 999999 && inR (natCanon prime 4) 0 9999 &&
         inR (natCanon g 2) 1 64 && inR (natCanon nk 1) 1 8 && inR (natCanon ms 4) 1 5000 && inR (natCanon seed 9) 0 999999999
     then (OSt.empty, "ok") else (o, "bad-op")
+  | ["poke", n] =>
+    -- the pointee of pointer key `p<n>` changes; the key (a pointer) does not
+    if !o.started || (natCanon n 3).isNone then (o, "bad-op") else (o, "ok")
+  | ["burst", v, rw, prime, n] =>
+    -- n distinct fresh keys held at once (every third as a writer), then all released; keys are independent
+    -- (`sem_keys_independent`), so each is run on its own: `live` = entries while all are held, `after` = afterwards
+    match natCanon rw 6, natCanon prime 4, natCanon n 5 with
+    | some rw, some _, some n =>
+      if !(v == "single" || v == "wide" || v == "xhash") || rw == 0 || n == 0 || n > 20000 then (o, "bad-op") else
+      let one (i : Nat) : Bool × Bool :=
+        let s1 := KS.step cfg rw KS.init (.acquire 0 i (i % 3 == 0))
+        let s2 := KS.step cfg rw s1 (.release 0 i)
+        (s1.present, s2.present)
+      let rs := (List.range n).map one
+      (OSt.empty, s!"live={(rs.filter (·.1)).length} after={(rs.filter (·.2)).length}")
+    | _, _, _ => (o, "bad-op")
   | ["relx", t, u] =>
     if !o.started then (o, "bad-op") else
     match natCanon t 9, natCanon u 9 with
@@ -143,7 +179,7 @@ def stepLine (o : OSt) (line : String) : OSt × String :=
       else if op == "acqRx" then some (false, true) else if op == "acqWx" then some (true, true) else none
     match kind, natCanon t 9 with
     | some (wr, pc), some t =>
-      if !validKey o.single tok || (callOf o t).isSome then (o, "bad-op") else doAcquire o t tok wr pc
+      if !validKey tok || (callOf o t).isSome then (o, "bad-op") else doAcquire o t tok wr pc
     | _, _ => (o, "bad-op")
   | ["rel", t] =>
     if !o.started then (o, "bad-op") else
@@ -188,8 +224,8 @@ def stepLine (o : OSt) (line : String) : OSt × String :=
           | some s' => ({ o with st := s' }, "ctx woke=" ++ showTids (woke o k o.st s'))
         else (o, "noop")
   | ["inside", tok] =>
-    if !o.started || !validKey o.single tok then (o, "bad-op") else
-    match findIdx o.keys tok with
+    if !o.started || !validKey tok then (o, "bad-op") else
+    match findIdx o.keys (canonTok tok) with
     | none => (o, "r=0 w=0")
     | some k =>
       let hs := o.calls.filter (fun c => c.2.1 == k && (o.st k).holds c.1)
@@ -203,8 +239,8 @@ def stepLine (o : OSt) (line : String) : OSt × String :=
     if !o.started then (o, "bad-op") else
     (o, toString ((List.range o.keys.length).filter (fun k => (o.st k).present)).length)
   | ["state", tok] =>
-    if !o.started || !validKey o.single tok then (o, "bad-op") else
-    match findIdx o.keys tok with
+    if !o.started || !validKey tok then (o, "bad-op") else
+    match findIdx o.keys (canonTok tok) with
     | none => (o, "cur=0 waiters=0 present=0")
     | some k =>
       match (o.st k).live with
